@@ -91,6 +91,25 @@ def _c10(tier):
 CHECKS["C10"] = _c10
 
 
+def _c16(tier):
+    t0 = time.time()
+    res = Results("C16")
+    jobs = harness_jobs("sortsearch", "C16", tier, ["plain", "asan"], nw=8)
+    run_workers(jobs, res)
+    res.evaluations = res.counters.get("sorts", 0) + res.counters.get("searches", 0)
+    return finish(res, tier, "exploration",
+                  "arrays: all key patterns over {0,1,2} for nmemb 0..7 (quick) / 0..9 (thorough) x element sizes {1,4,8,300}; sorted / reversed / "
+                  "all-equal / organ-pipe / random arrays with key ranges 1,2,n/2,n,2^31 over element sizes 1..300 (incl. >256, non powers of two), "
+                  "nmemb up to 5000; after each sort a bsearch_s for every key value in [min-1, max+1]; distinct = (nmemb class or exact nmemb<=9, "
+                  "size class, pattern, placement, object-size mode, outcome)", t0,
+                  extra_cov=dict(builds=["plain", "asan"], harnesses=["sortsearch"], comparator_calls=res.counters.get("comparator_calls", 0),
+                                 exhaustive=False, exhaustive_subspace="key patterns over {0,1,2} up to the stated nmemb"),
+                  assumptions=FENCE_ASSUME + ["ASan build adds red-zone detection for the sort's own stack/static scratch"], min_evals=1000)
+
+
+CHECKS["C16"] = _c16
+
+
 def replay(path):
     r = json.load(open(path))
     w = r.get("witness", {})
